@@ -26,12 +26,20 @@ from runner import Script, cx, qs  # noqa: E402
 PROP = "C17"
 TOL = 1e-12
 TRANSFORMS = ["entry", "abbrev", "order", "abscale", "unrelated", "split_f",
-              "e12_ue14", "renumber"]
+              "e12_ue14", "renumber", "shared"]
 
 
-def base_scenario(rng, ctype, r, c, F, form, noisy):
+def base_scenario(rng, ctype, r, c, F, form, noisy, offgrid=False):
     for _ in range(8):
         sc = calgen.Scenario(ctype, r, c, F, rng, form=form)
+        if offgrid:
+            # frequency-dependent standards on their own grids of 6..10
+            # knots whose values follow no simple law
+            sc.offgrid, sc.offgrid_prob = True, 0.6
+            sc.offgrid_knots, sc.offgrid_rough = (7, 13), 0.05
+            # ... reaching far beyond the band on both sides, so that the
+            # calibration frequencies sit in the middle of the knots
+            sc.offgrid_margin = float(rng.uniform(0.6, 1.5))
         sc.sufficient_recipe(extras=int(rng.integers(1, 4)))
         sc.choose_entries()
         ok, kappa = sc.well_determined(1e3)
@@ -107,6 +115,32 @@ def emit(sc, duts, extra_before=None, name="cal", extra_between=None):
     for i, st in enumerate(sc.stds):
         if extra_between:
             extra_between(s, i)
+        lines["add"].append(sc.emit_std(s, st, i, uid=uid))
+    lines["solve"] = s.op("vnacal_new_solve $vn")
+    lines["addcal"] = s.op("ci=vnacal_add_calibration $vc %s $vn" % qs(name))
+    s.op("vd=vnadata_alloc")
+    lines["apply"], lines["dump"] = sc.emit_apply(s, duts, name, form="m")
+    return s, lines
+
+
+def emit_shared(sc, duts, name="cal"):
+    """the same calibration entered twice in one vnacal_t, the second time
+    through a new vnacal_new_t but with the SAME parameter handles: the first
+    one is the "unrelated calibration" of the property, and it has evaluated
+    every frequency-dependent standard up to the top of the band before the
+    second one starts at the bottom"""
+    sc.reset_vars()
+    s = Script()
+    lines = {}
+    sc.emit_header(s, vn="vfirst")
+    uid = [0]
+    for i, st in enumerate(sc.stds):
+        sc.emit_std(s, st, 500 + i, vn="vfirst", uid=uid)
+    s.op("vnacal_new_solve $vfirst")
+    s.op("cfirst=vnacal_add_calibration $vc \"first\" $vfirst")
+    sc.emit_header(s, create=False)
+    lines["add"] = []
+    for i, st in enumerate(sc.stds):
         lines["add"].append(sc.emit_std(s, st, i, uid=uid))
     lines["solve"] = s.op("vnacal_new_solve $vn")
     lines["addcal"] = s.op("ci=vnacal_add_calibration $vc %s $vn" % qs(name))
@@ -194,11 +228,15 @@ def work(chunk_id, payload):
         F = int(rng.choice([1, 2, 3]))
         if tr == "split_f":
             F = int(rng.choice([2, 3]))
+        if tr == "shared":
+            F = int(rng.choice([2, 3, 5]))
+            p = r = c = min(p, 2)
         form = "ab" if tr == "abscale" else \
             ("m" if rng.random() < 0.5 else "ab")
         noisy = tr in ("entry", "order", "abscale", "unrelated", "split_f",
-                       "e12_ue14")
-        A, kappa = base_scenario(rng, ctype, r, c, F, form, noisy)
+                       "e12_ue14", "shared")
+        A, kappa = base_scenario(rng, ctype, r, c, F, form, noisy,
+                                 offgrid=(tr == "shared"))
         if A is None:
             cnt["skipped_not_well_determined"] = cnt.get(
                 "skipped_not_well_determined", 0) + 1
@@ -309,6 +347,16 @@ def work(chunk_id, payload):
                 cases.append((cid + "b%d" % f, sB.text()))
             meta[cid] = (tr, A, kappa, lA, [(x[0], x[2]) for x in subs], None,
                          sA.text(), [x[1].text() for x in subs])
+        elif tr == "shared":
+            sB, lB = emit_shared(B, duts)
+            cases.append((cid + "a", sA.text()))
+            cases.append((cid + "b", sB.text()))
+            meta[cid] = (tr, A, kappa, lA, [(B, lB)], post, sA.text(),
+                         [sB.text()])
+            cnt["shared_offgrid_parameters"] = cnt.get(
+                "shared_offgrid_parameters", 0) + sum(
+                    1 for st in A.stds for row in st.sp for q in row
+                    if getattr(q, "pfreqs", None) is not None)
         else:
             sB, lB = emit(B, dutsB if tr == "renumber" else duts,
                           extra_before=unrelated(rng) if tr == "unrelated"
@@ -399,7 +447,9 @@ def main():
              "entry point change (through/line/double reflect/mapped), "
              "full<->abbreviated matrices (exact data), order of standards, "
              "A.D / B.D scaling of a/b readings, unrelated objects in the same "
-             "vnacal_t, F frequencies together vs one at a time, E12 vs UE14, "
+             "vnacal_t (incl. a first calibration that uses the same parameter "
+             "handles: frequency-dependent standards on their own 6..10-knot "
+             "grids), F frequencies together vs one at a time, E12 vs UE14, "
              "consistent port renumbering (exact data); noisy over-determined "
              "data elsewhere; distinct = distinct (transformation, type, rows, "
              "cols, form)",
